@@ -20,9 +20,22 @@ def diff_case(impl, model):
 
 def execute(P, cases, ctx, tag="main", run_model=True):
     rundir = os.path.join(ctx.rundir, tag)
-    impl, model, errs = run_sharded(P.DRIVER, cases, ctx.drv, rundir,
-                                    impl_env=getattr(P, "IMPL_ENV", None), run_model=run_model,
-                                    shards=getattr(P, "SHARDS", None))
+    groups = {}
+    if hasattr(P, "env_key"):
+        for c in cases:
+            groups.setdefault(json.dumps(P.env_key(c), sort_keys=True), []).append(c)
+    else:
+        groups[json.dumps(getattr(P, "IMPL_ENV", None) or {})] = cases
+    impl, model, errs = {}, {}, []
+    for gi, (k, cs) in enumerate(sorted(groups.items())):
+        i, m, e = run_sharded(P.DRIVER, cs, ctx.drv, os.path.join(rundir, "g%d" % gi),
+                              impl_env=json.loads(k), run_model=run_model,
+                              shards=getattr(P, "SHARDS", None))
+        impl.update(i); model.update(m); errs += e
+    if hasattr(P, "canon"):
+        for d in (impl, model):
+            for k in d:
+                d[k]["obs"] = P.canon(d[k]["obs"])
     shutil.rmtree(rundir, ignore_errors=True)
     return impl, model, errs
 
